@@ -945,6 +945,166 @@ def cmp_copy(ck, c, res, mo):
 
 
 # ---------------------------------------------------------------------------------------------
+# experiment: the Grid object's own containers (geometry caches, trees) after a copy
+
+CONTAINERS = ["_gdf_cached_parameters", "_poly_collection_cached_parameters", "_line_collection_cached_parameters",
+              "_ball_tree", "_kd_tree"]
+OBS_KINDS = ["gdf", "gdf_geopandas", "poly", "line", "da_gdf", "da_poly", "ball_nodes", "ball_faces", "kd_nodes", "kd_faces"]
+
+
+def observe_kind(g, kind, mc):
+    """one cached public observation of a grid (default flags: cache=True)"""
+    UX = ux()
+    if kind == "gdf":
+        return canon_geo(g.to_geodataframe(periodic_elements="exclude"))
+    if kind == "gdf_geopandas":
+        return canon_geo(g.to_geodataframe(periodic_elements="ignore", engine="geopandas"))
+    if kind == "poly":
+        return canon_geo(g.to_polycollection(periodic_elements="exclude"))
+    if kind == "line":
+        return canon_geo(g.to_linecollection(periodic_elements="ignore"))
+    if kind in ("da_gdf", "da_poly"):
+        da = UX.UxDataArray(np.arange(g.n_face, dtype=float) * 3 + 1, dims=["n_face"], uxgrid=g, name="w")
+        return canon_geo(da.to_geodataframe(periodic_elements="exclude") if kind == "da_gdf" else da.to_polycollection(periodic_elements="exclude"))
+    lon = np.array(mc["lon_u"][:4], dtype=float) / U + 0.37
+    lat = np.clip(np.array(mc["lat_u"][:4], dtype=float) / U - 0.21, -89, 89)
+    coords = "nodes" if kind.endswith("nodes") else "face centers"
+    if kind.startswith("ball"):
+        t = g.get_ball_tree(coordinates=coords, coordinate_system="spherical")
+        d, i = t.query(np.column_stack([lon, lat]), k=1)
+    else:
+        t = g.get_kd_tree(coordinates=coords, coordinate_system="cartesian")
+        x = np.cos(np.deg2rad(lat)) * np.cos(np.deg2rad(lon))
+        y = np.cos(np.deg2rad(lat)) * np.sin(np.deg2rad(lon))
+        z = np.sin(np.deg2rad(lat))
+        d, i = t.query(np.column_stack([x, y, z]), k=1)
+    return (kind, tuple(int(q) for q in np.asarray(i).ravel()), tuple(round(float(q), 9) for q in np.asarray(d).ravel()))
+
+
+def geometry_mutator(g, mut, mc):
+    """public mutators that change what the exports / trees of the mutated grid show"""
+    X = xr()
+    if mut == "set_node_lon":
+        old = g.node_lon
+        new = ((old.values + 7.0 + 180.0) % 360.0) - 180.0
+        g.node_lon = X.DataArray(new, dims=old.dims, attrs=dict(old.attrs))
+    elif mut == "set_node_lat":
+        old = g.node_lat
+        g.node_lat = X.DataArray(np.clip(old.values * 0.9 + 1.0, -89.5, 89.5), dims=old.dims, attrs=dict(old.attrs))
+    elif mut == "set_face_lon":
+        old = g.face_lon
+        g.face_lon = X.DataArray(((old.values + 11.0 + 180.0) % 360.0) - 180.0, dims=old.dims, attrs=dict(old.attrs))
+    elif mut == "centers_welzl":
+        g.construct_face_centers(method="welzl")
+    elif mut == "centers_avg":
+        g.construct_face_centers(method="cartesian average")
+    elif mut == "normalize":
+        g.normalize_cartesian_coordinates()
+    elif mut == "chunk":
+        g.chunk(n_node=2, n_edge=2, n_face=2)
+    else:
+        raise ValueError(mut)
+
+
+def run_copycache(ck, c):
+    """copy; mutate one side through the public API; observe that side with caching; then observe the
+    untouched side with the same arguments: it must report what a fresh grid of its own data reports"""
+    UX = ux()
+    mc = c["mesh"]
+    g = base_grid(c)
+    res = {"raises": None, "changed": False, "shared": []}
+    for k in c["pre_obs"]:
+        try:
+            observe_kind(g, k, mc)
+        except Exception:
+            pass
+    if c["path"] == "Grid.copy":
+        cp = g.copy()
+    elif c["path"] == "UxDataArray.copy":
+        cp = UX.UxDataArray(np.arange(g.n_face, dtype=float), dims=["n_face"], uxgrid=g, name="v").copy().uxgrid
+    else:
+        cp = _copy.deepcopy(g)
+    res["shares_ds"] = cp._ds is g._ds
+    res["shared"] = [k for k in CONTAINERS if getattr(g, k, None) is not None and getattr(cp, k, None) is getattr(g, k)]
+    res["shared_other_attributes"] = sorted(k for k, v in vars(g).items() if k not in CONTAINERS and k != "_ds"
+                                            and isinstance(v, (dict, list, np.ndarray)) and vars(cp).get(k) is v)
+    a, b = (g, cp) if c["side"] == 0 else (cp, g)
+    try:
+        geometry_mutator(a, c["mutator"], mc)
+    except Exception as ex:
+        res["raises"] = type(ex).__name__ + ": " + str(ex)[:80]
+        return res, None
+    ref = base_grid(c)            # the untouched side's data are the original data
+    for k in c["obs"]:
+        try:
+            observe_kind(a, k, mc)
+        except Exception:
+            continue
+        try:
+            ob, orf = observe_kind(b, k, mc), observe_kind(ref, k, mc)
+        except Exception:
+            continue
+        res["compared"] = res.get("compared", 0) + 1
+        if ob != orf:
+            res["changed"] = True
+            ck.fail("copy_not_independent", c,
+                    {"path": c["path"], "shares_ds": bool(res["shares_ds"]), "via": "export:" + k,
+                     "shared_containers": bool(res["shared"])},
+                    detail="after %s on the %s and its %s export, the same export of the untouched grid differs from a fresh "
+                           "grid's (shared containers: %s)" % (c["mutator"], "original" if c["side"] == 0 else "copy", k, res["shared"]))
+            break
+    # model (theorem C19_copy_containers): every helper container of the copy is a new object
+    if res["shared"]:
+        ck.corr_failures.append({"case": strip(c), "what": "Grid containers shared between original and copy", "impl": res["shared"],
+                                 "model": []})
+    return res, None
+
+
+def run_dageo(ck, c):
+    """data-level exports under caller edits: after any earlier cached export, a UxDataArray export (any
+    cache flag), and the caller's edit of it, the Grid and other variables export what they exported before"""
+    UX = ux()
+    g = base_grid(c)
+    res = {"raises": None, "changed": False}
+    kw = {"periodic_elements": c["periodic"]}
+    if c["export"] == "to_geodataframe":
+        kw["engine"] = c["engine"]
+    try:
+        da = UX.UxDataArray(np.arange(g.n_face, dtype=float) + 5, dims=["n_face"], uxgrid=g, name="a")
+        db = UX.UxDataArray(np.arange(g.n_face, dtype=float) * 2, dims=["n_face"], uxgrid=g, name="b")
+        ref = base_grid(c)
+        rb = UX.UxDataArray(np.arange(ref.n_face, dtype=float) * 2, dims=["n_face"], uxgrid=ref, name="b")
+        want_grid = canon_geo(getattr(ref, c["export"])(**kw))
+        want_b = canon_geo(getattr(rb, c["export"])(**kw))
+        r0 = None
+        if c["before"] == "grid":
+            r0 = getattr(g, c["export"])(**kw)
+        elif c["before"] == "da":
+            getattr(db, c["export"])(**kw)
+        snap0 = None if r0 is None else canon_geo(r0)
+        e1 = getattr(da, c["export"])(cache=c["cache"], override=c["override"], **kw)
+        if c["edit"] != "none":
+            edit_geo(e1, c["edit"])
+        why = None
+        if r0 is not None and canon_geo(r0) != snap0:
+            why = "earlier_result_altered"
+        elif canon_geo(getattr(g, c["export"])(**kw)) != want_grid:
+            why = "grid_export"
+        elif canon_geo(getattr(db, c["export"])(**kw)) != want_b:
+            why = "other_variable_export"
+    except Exception as ex:
+        res["raises"] = type(ex).__name__ + ": " + str(ex)[:100]
+        return res, None
+    if why:
+        res["changed"] = True
+        ck.fail("export_edit_changes_grid", c,
+                {"export": "UxDataArray." + c["export"], "what": why, "cache": bool(c["cache"])},
+                detail="after UxDataArray.%s(cache=%s) and the caller's edit (%s): %s differs from a fresh grid's"
+                       % (c["export"], c["cache"], c["edit"], why))
+    return res, None
+
+
+# ---------------------------------------------------------------------------------------------
 # experiment: dataset exports under caller edits
 
 def edit_dataset(out, edit):
@@ -1258,6 +1418,31 @@ def gen_cases(ck):
         steps = [[rng.randrange(2), list(rng.choice(muts))] for _ in range(rng.randrange(2, 6))]
         cases.append({"kind": "copyhist", "mesh": mesh_case(m), "steps": steps, "pre": [], "xyz": rng.random() < 0.4,
                       "path": rng.choice(["Grid.copy", "UxDataArray.copy", "copy.deepcopy"])})
+    # --- the Grid's own containers: copy, mutate one side, export both sides with identical arguments
+    gmuts = ["set_node_lon", "set_node_lat", "set_face_lon", "centers_welzl", "centers_avg", "normalize", "chunk"]
+    for mu in gmuts * (1 if quick else 8):
+        for side in (0, 1):
+            m = small_mesh(rng)
+            pre_obs = rng.sample(OBS_KINDS, rng.randrange(0, 5))
+            obs = rng.sample(OBS_KINDS, 5) if quick else list(OBS_KINDS)
+            if mu in ("set_node_lon", "set_node_lat"):
+                obs = [k for k in OBS_KINDS if not k.endswith("faces")][:6] if quick else obs
+            cases.append({"kind": "copycache", "mesh": mesh_case(m), "mutator": mu, "side": side, "pre": [],
+                          "pre_obs": pre_obs, "obs": obs, "xyz": mu == "normalize" or rng.random() < 0.2,
+                          "path": rng.choice(["Grid.copy", "Grid.copy", "UxDataArray.copy", "copy.deepcopy"])})
+    # --- data-level exports under caller edits, after earlier cached exports, with every flag
+    for export, engines in (("to_geodataframe", ["spatialpandas", "geopandas"]), ("to_polycollection", [None])):
+        for engine in engines:
+            for pre in ("none", "grid", "da"):
+                for cache in (True, False):
+                    for edit in ("none", "addcol", "droprows"):
+                        if quick and rng.random() < 0.4:
+                            continue
+                        for _ in range(1 if quick else 4):
+                            m = small_mesh(rng)
+                            cases.append({"kind": "dageo", "export": export, "engine": engine, "before": pre, "cache": cache,
+                                          "override": rng.random() < 0.15, "edit": edit,
+                                          "periodic": rng.choice(["exclude", "ignore", "split"]), "mesh": mesh_case(m)})
     # --- dataset exports under edits
     edits = [("inplace", "node_lon"), ("inplace", "face_node_connectivity"), ("setdata", "node_lat"), ("addvar", None),
              ("replacevar", "node_lon"), ("attrs", None), ("varattrs", "node_lon"), ("delvar", "node_lat")]
@@ -1342,7 +1527,7 @@ def extraction_audit(ck, results):
     return n
 
 
-RUNNERS = {"topology": run_topology, "ugrid": run_ugrid, "adopt": run_adopt, "reader": run_reader,
+RUNNERS = {"copycache": run_copycache, "dageo": run_dageo, "topology": run_topology, "ugrid": run_ugrid, "adopt": run_adopt, "reader": run_reader,
            "vertices": run_vertices, "copy": run_copy, "copyhist": run_copyhist, "export": run_export, "geo": run_geo}
 
 
@@ -1459,6 +1644,9 @@ def main(ck):
     ck.extra.update({"case_kinds": kinds, "model_variant_matched": matched, "extraction_audit_cases": audit_n,
                      "cases_with_modified_input": n_mod, "cases_where_other_side_changed": n_changed,
                      "alias_pairs_measured (grid var token, input token) -> count": dict(sorted(alias_hist.items())[:60]),
+                     "copycache_observations_compared": sum(res.get("compared", 0) for c, res, _ in results),
+                     "grid_attributes_shared_by_copies (not containers of the model)": sorted({a for c, res, _ in results
+                                                                                               for a in res.get("shared_other_attributes", [])}),
                      "clauses_checked_on_impl": ["input_modified_by_build", "input_modified_by_use", "input_attrs_shared",
                                                  "copy_differs_from_original", "copy_not_independent",
                                                  "export_edit_changes_grid"],
